@@ -201,7 +201,8 @@ HalfTable ==
      << <<126,0>>,  <<127,248,0,0,0,0,0,0>> >>,
      << <<60,0>>,   <<63,240,0,0,0,0,0,0>> >> >>
 SingleTable ==
-  << << <<127,127,255,255>>, <<71,239,255,255,224,0,0,0>> >>,
+  << << <<127,192,0,0>>,     <<127,248,0,0,0,0,0,0>> >>,         \* NaN as f32
+     << <<127,127,255,255>>, <<71,239,255,255,224,0,0,0>> >>,
      << <<71,195,80,0>>,     <<64,248,106,0,0,0,0,0>> >>,
      << <<63,192,0,0>>,      <<63,248,0,0,0,0,0,0>> >>,
      << <<0,0,0,0>>,         <<0,0,0,0,0,0,0,0>> >> >>
